@@ -18,7 +18,7 @@ ASSUMPTIONS = ["permutations of inputs/outputs/terms are checked for coherence o
 
 EDITS_CONTRACT = ["copy", "copy", "inplace-simplify", "move-input-to-output", "hash-then-rename", "replace-input", "replace-output", "add-output", "coef", "coef-tiny", "const-a", "const-g", "drop-g", "perm-inputs",
                   "perm-outputs", "perm-terms", "roundtrip-dict", "roundtrip-str", "neg-zero", "var-order"]
-EDITS_TERMS = ["copy", "coef", "coef-tiny", "const-tiny", "const", "neg-zero", "var-order", "parsed", "perm-terms", "drop-term", "hash-then-rename"]
+EDITS_TERMS = ["copy", "coef", "coef-tiny", "const-tiny", "const", "neg-zero", "var-order", "parsed", "perm-terms", "drop-term", "hash-then-rename", "rename-cancel"]
 
 
 @st.composite
@@ -170,6 +170,7 @@ def run_case(case):
     kind = case["kind"]
     labels = ["kind:" + kind] + ["edit:" + e for e in case["edits"]]
     objs, expect = [], []
+    pending = None
     try:
         if kind in ("term", "list"):
             base = _mk_terms(kind, case["base"], "none")
@@ -189,6 +190,28 @@ def run_case(case):
                     renamed = [[{("zz" if k == src else k): v for k, v in t[0].items()}, t[1]] for t in case["base"]]
                     objs.append(_mk_terms(kind, renamed, "none"))
                     expect.append(None)
+                elif e == "rename-cancel":
+                    # a rename that merges two variables whose coefficients cancel exactly: the result must be the object one
+                    # would write by hand without that variable, equal to its own copy, with the same hash
+                    t0 = case["base"][0]
+                    v = sorted(t0[0])[case["pick"] % len(t0[0])]
+                    if len(t0[0]) >= 2:
+                        with_zz = [[dict(t0[0], zz=-t0[0][v]), t0[1]]] + [[dict(t[0]), t[1]] for t in case["base"][1:]]
+                        o = _mk_terms(kind, with_zz, "none").rename_variable(env.Var("zz"), env.Var(v))
+                        hand = [[{k: c for k, c in t0[0].items() if k != v}, t0[1]]] + [[dict(t[0]), t[1]] for t in case["base"][1:]]
+                        scratch = _mk_terms(kind, hand, "none")
+                        cp = o.copy()
+                        if not (o == cp):
+                            pending = {"what": "%s: the copy of a renamed object (cancelling coefficients) is not equal to it" % kind,
+                                       "sig": {"kind": "copy-not-equal", "obj": kind, "edit": e}, "detail": {}}
+                        elif not (o == scratch):
+                            pending = {"what": "%s: renaming two variables with cancelling coefficients into one does not give the object written without that variable" % kind,
+                                       "sig": {"kind": "same-not-equal", "obj": kind, "edit": e}, "detail": {}}
+                        objs += [o, scratch]
+                        expect += [None, None]
+                    else:
+                        objs += [base.copy(), base.copy()]
+                        expect += [None, None]
                 else:
                     ts, differs = _edit_terms(case["base"], e, case["pick"], case["delta"])
                     objs.append(_mk_terms(kind, ts, e))
@@ -268,7 +291,7 @@ def run_case(case):
     viol = None
     names_e = []
     for e in case["edits"]:
-        names_e += [e, e] if (e == "hash-then-rename" and kind in ("term", "list", "contract")) else [e]
+        names_e += [e, e] if (e in ("hash-then-rename", "rename-cancel") and kind in ("term", "list", "contract")) else [e]
     for i in range(n):
         if not E[i][i]:
             viol = {"what": "%s object is not equal to itself" % kind, "sig": {"kind": "eq-not-reflexive", "obj": kind}, "detail": {}}
@@ -291,4 +314,4 @@ def run_case(case):
         if differs is True and E[0][idx]:
             viol = {"what": "%s objects differing by edit '%s' compare equal" % (kind, e), "sig": {"kind": "different-but-equal", "obj": kind, "edit": e}, "detail": {}}
     nontrivial = any(e not in ("copy",) for e in case["edits"])
-    return {"viol": viol, "nontrivial": nontrivial, "labels": labels, "outcome": "judged"}
+    return {"viol": viol or pending, "nontrivial": nontrivial, "labels": labels, "outcome": "judged"}
